@@ -66,6 +66,7 @@ type FnCtx struct {
 	conformOuterPath []int
 	conformImpl   *Contract // conformance job: the implementation's contract (fc.con is the interface method's contract)
 	prefixOverride string
+	loopHeadPhis  map[*ssa.BasicBlock]map[*ssa.Phi]Val // the loop variables' values at the head (for prev() in step clauses)
 	lastRef       string
 	curBinds      []Val // captured values of the closure being called by contract
 	freshReach    map[string]string // reach condition under which each such object was allocated
@@ -855,6 +856,10 @@ func (fc *FnCtx) execBody(fr *Frame, st *State, reach string) (Val, string) {
 				fc.loopHead = map[*ssa.BasicBlock]*State{}
 			}
 			fc.loopHead[b] = bst.clone()
+			if fc.loopHeadPhis == nil {
+				fc.loopHeadPhis = map[*ssa.BasicBlock]map[*ssa.Phi]Val{}
+			}
+			fc.loopHeadPhis[b] = cur
 		} else {
 			for _, p := range phis {
 				v := phiAt(edges[len(edges)-1], p)
